@@ -121,7 +121,13 @@ impl ScalarUDFImpl for FindInSetFunc {
                     }
                     _ => None,
                 };
-                Ok(ColumnarValue::Scalar(ScalarValue::from(res)))
+                // LargeUtf8 arguments promise Int64 (see `return_type`)
+                match return_field.data_type() {
+                    DataType::Int64 => Ok(ColumnarValue::Scalar(ScalarValue::Int64(
+                        res.map(|v| v as i64),
+                    ))),
+                    _ => Ok(ColumnarValue::Scalar(ScalarValue::from(res))),
+                }
             }
 
             // `string` is an array, `str_list` is scalar
